@@ -184,6 +184,11 @@ func fixedRunCases() []*Case {
 		sa(1, 2, "setvar:tx.max=0"),
 		sr(2, 2, "ARGS_GET:a", "gt", "%{tx.max}", "setvar:tx.max=%{MATCHED_VAR}", "setvar:tx.steps=+1"),
 		sr(3, 2, "&ARGS_GET:a|&ARGS_GET|&TX:max|&ARGS_GET:zz", "ge", "1", "setvar:tx.counts=+%{MATCHED_VAR}", "setvar:tx.cn_%{MATCHED_VAR_NAME}=%{MATCHED_VAR}"))
+	// captures of the value being matched: an optional group that does not participate clears TX.2
+	mk("fixed", [][2]string{{"item", "x1-red"}, {"item", "x2"}, {"item", "x3-blue"}, {"item", "x4"}}, nil,
+		RuleDesc{ID: 1, Phase: 2, Links: []LinkDesc{{Targets: parseTargets("ARGS:item"), Op: "rxg", OpArg: `^x(\d)(?:-(\w+))?$`, Capture: true,
+			LogData: "%{tx.1}:%{tx.2}", Actions: []string{"setvar:tx.n=+1", "setvar:tx.c_%{tx.n}=%{tx.2}", "setvar:tx.c=%{tx.2}"}},
+			{Targets: parseTargets("TX:2"), Op: "unconditionalMatch", Actions: []string{"setvar:tx.link=[%{MATCHED_VAR}]"}}}})
 	return out
 }
 
@@ -592,6 +597,94 @@ func genRun(r *rand.Rand, ordered bool) *Case {
 				}
 			}
 		}
+	}
+	return c
+}
+
+// ---------------------------------------------------------------------------------------
+// capture family: @rx with optional / alternative groups over 2-4 values of one repeated
+// argument name (insertion order), whose group participation differs between the values; the
+// per-match actions copy %{tx.1}..%{tx.3} under a per-match counter, append them, and log them
+// ---------------------------------------------------------------------------------------
+
+type capShape struct {
+	pattern string
+	values  []string
+}
+
+var capShapes = []capShape{
+	{`^x(\d)(?:-(\w+))?$`, []string{"x1-red", "x2", "x3-blue", "x4", "y5", "x6-", "X7-RED", "X8"}},
+	{`^(a)?(b)?(c)?$`, []string{"abc", "b", "ac", "c", "", "ab", "bc", "a", "ABC", "B"}},
+	{`^(?:(x)|(y))(\d*)$`, []string{"x1", "y", "y22", "x", "z1", "x333", "Y4", "X"}},
+	{`^(\w+)=(\w*)(?:;(\w+))?$`, []string{"k=v;z", "k=", "q=w", "a=;b", "=x", "K=V;Z", "n=1"}},
+	{`(\d+)(-)?([a-z])?`, []string{"12-a", "7", "3-", "ab9c", "none", "5z", "44-Q"}},
+}
+
+var capActions = []string{
+	"setvar:tx.g1_%{tx.n}=%{tx.1}", "setvar:tx.g2_%{tx.n}=%{tx.2}", "setvar:tx.g3_%{tx.n}=%{tx.3}", "setvar:tx.g0_%{tx.n}=%{tx.0}",
+	"setvar:tx.all=%{tx.all}|%{tx.1},%{tx.2},%{tx.3}", "setvar:tx.k_%{tx.2}=+1", "setvar:tx.last2=%{tx.2}", "setvar:tx.last3=[%{tx.3}]",
+	"setvar:tx.seen_%{tx.n}=%{MATCHED_VAR}:%{tx.1}:%{tx.2}", "setvar:tx.g4_%{tx.n}=%{tx.4}",
+}
+
+func genCap(r *rand.Rand) *Case {
+	c := &Case{Kind: "run", Ordered: true, Shape: "capture"}
+	sh := pick(r, capShapes)
+	n := 2 + r.Intn(3)
+	for i := 0; i < n; i++ {
+		c.Args = append(c.Args, [2]string{"a", pick(r, sh.values)})
+	}
+	if r.Intn(3) == 0 {
+		c.Args = append(c.Args, [2]string{"b", pick(r, sh.values)})
+	}
+	if r.Intn(3) == 0 {
+		c.Hdrs = [][2]string{{"x-h1", pick(r, sh.values)}}
+	}
+	id := 100
+	if r.Intn(3) == 0 {
+		c.Rules = append(c.Rules, sa(id, 1, "setvar:tx.n=0", "setvar:tx.all=^"))
+		id++
+	}
+	nr := 1 + r.Intn(2)
+	for k := 0; k < nr; k++ {
+		if k > 0 {
+			sh = pick(r, capShapes)
+		}
+		l := LinkDesc{Op: "rxg", OpArg: sh.pattern, Capture: r.Intn(8) != 0}
+		l.Targets = parseTargets(pick(r, []string{"ARGS_GET:a", "ARGS:a", "ARGS_GET:a|ARGS_GET:b", "ARGS_GET:a|REQUEST_HEADERS:x-h1", "ARGS_GET:a"}))
+		if r.Intn(3) == 0 {
+			l.Tfs = [][]string{{"lowercase"}, {"trim", "lowercase"}, {"uppercase"}}[r.Intn(3)]
+			l.Multi = r.Intn(2) == 0
+		}
+		l.Neg = r.Intn(12) == 0
+		l.Actions = []string{"setvar:tx.n=+1"}
+		na := 1 + r.Intn(4)
+		for i := 0; i < na; i++ {
+			l.Actions = append(l.Actions, pick(r, capActions))
+		}
+		if r.Intn(2) == 0 {
+			l.LogData = pick(r, []string{"%{tx.1}/%{tx.2}/%{tx.3}", "%{tx.2}", "%{tx.0}=%{tx.1}+%{tx.3}"})
+		}
+		if r.Intn(2) == 0 {
+			l.Msg = pick(r, []string{"g %{tx.2}", "m %{tx.1}%{tx.3}", "n=%{tx.n} %{tx.2}"})
+		}
+		rd := RuleDesc{ID: id, Phase: 1 + r.Intn(5), Links: []LinkDesc{l}}
+		id++
+		if r.Intn(3) == 0 {
+			// a link reading the captures left by the starter's last match
+			ln := LinkDesc{Targets: parseTargets(pick(r, []string{"TX:2", "TX:1|TX:2|TX:3", "TX:3", "TX:0"})), Op: "unconditionalMatch",
+				Actions: []string{"setvar:tx.link_%{MATCHED_VAR_NAME}=[%{MATCHED_VAR}]", "setvar:tx.lc=+1"}}
+			if r.Intn(2) == 0 {
+				ln.Op, ln.OpArg = "streq", pick(r, []string{"red", "b", "", "x", "%{tx.last2}"})
+				if ln.OpArg == "" {
+					ln.Op, ln.OpArg = "eq", "0" // Atoi("") = 0: true for an empty (cleared) capture
+				}
+			}
+			rd.Links = append(rd.Links, ln)
+		}
+		c.Rules = append(c.Rules, rd)
+	}
+	if r.Intn(2) == 0 {
+		c.Rules = append(c.Rules, sr(id, 5, "TX:2|TX:3", "unconditionalMatch", "", "setvar:tx.end_%{MATCHED_VAR_NAME}=[%{MATCHED_VAR}]"))
 	}
 	return c
 }
